@@ -478,6 +478,9 @@ func genC03Sound(t *rapid.T, cfg *core.Config) *core.Case {
 	}
 	g := core.NewGen(t, spec, rapid.IntRange(3, fuel).Draw(t, "fuel"), cfg.Excl)
 	g.Calls = rapid.IntRange(0, 9).Draw(t, "calls") < 4
+	if rapid.IntRange(0, 2).Draw(t, "zoo") == 0 {
+		g.Zoo = rapid.IntRange(5, 40).Draw(t, "zoo%")
+	}
 	g.Dyn = rapid.IntRange(0, 4).Draw(t, "dyn") == 0
 	// pointer-receiver methods: accepted (and callable) when the environment is a pointer, rejected when it is a
 	// value - whatever the process compiled before
